@@ -18,7 +18,8 @@ def load(sinks=True, pre_vk=None):
         else:
             import psutil
         ov = os.environ.get("VERIF_OVERLAY")
-        if ov and not os.path.realpath(psutil.__file__).startswith(os.path.realpath("/repo")):
+        repo = os.environ.get("VERIF_REPO", "/repo")
+        if ov and not os.path.realpath(psutil.__file__).startswith(os.path.realpath(repo)):
             raise RuntimeError(f"psutil imported from unexpected place {psutil.__file__}")
         if ov and not psutil.__file__.startswith(ov):
             raise RuntimeError(f"psutil not imported from the overlay: {psutil.__file__}")
